@@ -1172,6 +1172,16 @@ class C:
             r = r * s
         return r if n >= 0 else C(1, 0) / r
 
+    def log(s):
+        """principal logarithm of a complex number on the real axis (im == 0): ln|re| + i*pi for re < 0 (numpy's branch for -x+0j)"""
+        im = s.im.const if isinstance(s.im, S) else s.im
+        if im is None or im != 0:
+            raise NotEncodable("complex logarithm off the real axis")
+        if bool(s.re > 0):
+            return C(np.log(s.re) if not isinstance(s.re, S) else s.re.log(), 0)
+        neg = -s.re
+        return C(np.log(neg) if not isinstance(neg, S) else neg.log(), PI_F)
+
     def __repr__(s):
         return f"C({s.re!r}, {s.im!r})"
 
